@@ -6,6 +6,7 @@ pub mod parse;
 pub mod lex;
 pub mod builtins;
 pub mod evalprops;
+pub mod misc;
 
 #[derive(Clone, Copy, PartialEq, Debug)]
 pub enum Tier {
@@ -28,6 +29,11 @@ pub trait Property {
     /// (cases, exhaustive?)
     fn cases(&self, tier: Tier, rng: &mut Rng) -> (Vec<Case>, bool);
     fn judge(&self, case: &Case, out: &Outcome) -> Verdict;
+    /// checks that do not go through the line protocol (threads, serde, subprocesses):
+    /// returns (evaluations, spec violations as (input, detail), notes for the evidence)
+    fn extra(&self, _tier: Tier, _rng: &mut Rng) -> (usize, Vec<(String, String)>, Vec<String>) {
+        (0, vec![], vec![])
+    }
 }
 
 pub fn by_id(id: &str) -> Option<Box<dyn Property>> {
@@ -43,6 +49,9 @@ pub fn by_id(id: &str) -> Option<Box<dyn Property>> {
         "C11" => Some(Box::new(evalprops::C11)),
         "C12" => Some(Box::new(evalprops::C12)),
         "C14" => Some(Box::new(evalprops::C14)),
+        "C01" => Some(Box::new(misc::C01)),
+        "C15" => Some(Box::new(misc::C15)),
+        "C16" => Some(Box::new(misc::C16)),
         "C05" => Some(Box::new(parse::C05)),
         "C13" => Some(Box::new(parse::C13)),
         _ => None,
